@@ -6,7 +6,7 @@ VARIABLE v
 Widths == 0..MaxW
 V0 == {UnitSumV(t, s) : <<t, s>> \in {<<a, b>> \in (0..2) \X (1..3) : a < b}}
       \cup {IntV(w, 3) : w \in Widths} \cup {IntV(5, 0), FloatV("#f1"), StringV("s"), StringV("ü"), FuncV(<<BoolT>>), FuncV(<<>>),
-            FuncRebound(<<BoolT>>, <<QubitT, BoolT>>), FuncRebound(<<>>, <<BoolT>>)}
+            FuncRebound(<<BoolT>>, <<QubitT, BoolT>>), FuncRebound(<<>>, <<BoolT>>), FuncDelta(<<BoolT>>, <<"verif.ext">>)}
 (* a few representatives used as fields of compound values *)
 F0 == {UnitSumV(1, 2), IntV(5, 3), FloatV("#f1"), FuncV(<<BoolT>>), UnitSumV(0, 1)}
 ElemTys == {BoolT, IntT(5), TupleT(<<BoolT, BoolT>>), OptionT(<<BoolT>>), QubitT}
